@@ -40,6 +40,7 @@ pub struct TickCtx {
     pub shared_hits: Cell<u64>,
     pub block_ticks: Cell<u64>,
     pub iso_clock_reads: Cell<u64>,
+    pub rand_reads: Cell<u64>,
 }
 
 thread_local! {
@@ -63,6 +64,7 @@ thread_local! {
         shared_hits: Cell::new(0),
         block_ticks: Cell::new(0),
         iso_clock_reads: Cell::new(0),
+        rand_reads: Cell::new(0),
     } };
 }
 
@@ -330,7 +332,7 @@ pub unsafe extern "C" fn syscall(
     a6: libc::c_long,
 ) -> libc::c_long {
     if num == libc::SYS_futex {
-        if let Some(r) = crate::sim::intercept_futex(a1 as usize, a2 as i32, a3 as u32) {
+        if let Some(r) = crate::sim::intercept_futex(a1 as usize, a2 as i32, a3 as u32, a4 as *const libc::timespec) {
             return r as libc::c_long;
         }
     }
@@ -388,4 +390,148 @@ pub unsafe extern "C" fn clock_gettime(clk: libc::clockid_t, ts: *mut libc::time
         return -1;
     }
     0
+}
+
+// ---------------------------------------------------------------------------
+// Threads and timers of the library itself. A thread the library creates from inside a call during a simulated
+// run is adopted by the scheduler: it registers, parks, and from then on runs only while it holds the baton, with
+// the same decision points as a caller thread. `nanosleep` / `clock_nanosleep` / timed futex waits issued inside
+// the library are timed waits in VIRTUAL time: the scheduler decides when a timer fires (and virtual time then
+// moves to its deadline); `sched_yield` is a decision point that prefers another thread. Outside a simulated run
+// (harness threads, the isolated oracle evaluation) all of these are the real thing.
+
+type StartFn = extern "C" fn(*mut libc::c_void) -> *mut libc::c_void;
+
+struct HelperStart {
+    start: StartFn,
+    arg: *mut libc::c_void,
+    id: usize,
+}
+
+extern "C" fn helper_tramp(p: *mut libc::c_void) -> *mut libc::c_void {
+    let b = unsafe { Box::from_raw(p as *mut HelperStart) };
+    let mut ret: *mut libc::c_void = std::ptr::null_mut();
+    let (start, arg, id) = (b.start, b.arg, b.id);
+    drop(b);
+    crate::sim::helper_main(id, &mut || {
+        ret = start(arg);
+    });
+    ret
+}
+
+#[cfg(all(target_os = "linux", target_arch = "x86_64"))]
+#[no_mangle]
+pub unsafe extern "C" fn pthread_create(
+    thread: *mut libc::pthread_t,
+    attr: *const libc::pthread_attr_t,
+    start: StartFn,
+    arg: *mut libc::c_void,
+) -> libc::c_int {
+    static REAL: std::sync::atomic::AtomicUsize = std::sync::atomic::AtomicUsize::new(0);
+    let mut real = REAL.load(Ordering::Relaxed);
+    if real == 0 {
+        real = libc::dlsym(libc::RTLD_NEXT, b"pthread_create\0".as_ptr() as *const libc::c_char) as usize;
+        REAL.store(real, Ordering::Relaxed);
+    }
+    if real == 0 {
+        return libc::EAGAIN;
+    }
+    let realf: unsafe extern "C" fn(*mut libc::pthread_t, *const libc::pthread_attr_t, StartFn, *mut libc::c_void) -> libc::c_int = std::mem::transmute(real);
+    if let Some(id) = crate::sim::adopt_begin() {
+        let b = Box::into_raw(Box::new(HelperStart { start, arg, id }));
+        let r = realf(thread, attr, helper_tramp, b as *mut libc::c_void);
+        if r != 0 {
+            drop(Box::from_raw(b));
+        }
+        crate::sim::adopt_end(id, r == 0);
+        return r;
+    }
+    realf(thread, attr, start, arg)
+}
+
+#[cfg(all(target_os = "linux", target_arch = "x86_64"))]
+#[no_mangle]
+pub unsafe extern "C" fn nanosleep(req: *const libc::timespec, rem: *mut libc::timespec) -> libc::c_int {
+    if !req.is_null() {
+        let ns = ((*req).tv_sec as i64).saturating_mul(1_000_000_000).saturating_add((*req).tv_nsec as i64);
+        if crate::sim::intercept_sleep(ns, None) {
+            return 0;
+        }
+    }
+    let ret: libc::c_long;
+    core::arch::asm!("syscall", inlateout("rax") libc::SYS_nanosleep => ret, in("rdi") req, in("rsi") rem, lateout("rcx") _, lateout("r11") _, options(nostack));
+    if ret < 0 {
+        *libc::__errno_location() = (-ret) as i32;
+        return -1;
+    }
+    0
+}
+
+#[cfg(all(target_os = "linux", target_arch = "x86_64"))]
+#[no_mangle]
+pub unsafe extern "C" fn clock_nanosleep(clk: libc::clockid_t, flags: libc::c_int, req: *const libc::timespec, rem: *mut libc::timespec) -> libc::c_int {
+    if !req.is_null() {
+        let ns = ((*req).tv_sec as i64).saturating_mul(1_000_000_000).saturating_add((*req).tv_nsec as i64);
+        let abs = if flags & libc::TIMER_ABSTIME != 0 { Some(clk == libc::CLOCK_REALTIME) } else { None };
+        if crate::sim::intercept_sleep(ns, abs) {
+            return 0;
+        }
+    }
+    let ret: libc::c_long;
+    core::arch::asm!("syscall", inlateout("rax") libc::SYS_clock_nanosleep => ret, in("rdi") clk as libc::c_long, in("rsi") flags as libc::c_long, in("rdx") req, in("r10") rem, lateout("rcx") _, lateout("r11") _, options(nostack));
+    // clock_nanosleep returns the error number itself
+    (-ret) as libc::c_int
+}
+
+#[cfg(all(target_os = "linux", target_arch = "x86_64"))]
+#[no_mangle]
+pub unsafe extern "C" fn sched_yield() -> libc::c_int {
+    if crate::sim::intercept_yield() {
+        return 0;
+    }
+    let ret: libc::c_long;
+    core::arch::asm!("syscall", inlateout("rax") libc::SYS_sched_yield => ret, lateout("rcx") _, lateout("r11") _, options(nostack));
+    ret as libc::c_int
+}
+
+// ---------------------------------------------------------------------------
+// `getrandom()` — where std's `RandomState` (HashMap / HashSet keys) and anything else in the library would get
+// entropy. On a thread of a simulated run the bytes come from the run's seed (per thread, per request), so that
+// hash-table layouts, and with them tick counts and schedules, replay exactly. Everywhere else (the isolated
+// oracle evaluations included, which therefore still differ from each other and from the simulated run if a
+// result depends on it) it is the kernel's.
+#[cfg(all(target_os = "linux", target_arch = "x86_64"))]
+#[no_mangle]
+pub unsafe extern "C" fn getrandom(buf: *mut libc::c_void, len: libc::size_t, flags: libc::c_uint) -> libc::ssize_t {
+    if !buf.is_null() {
+        let seeded = T.try_with(|c| {
+            if c.mode.get() != MODE_SIM {
+                return false;
+            }
+            let seed = match crate::sim::run_entropy() {
+                Some(s) => s,
+                None => return false,
+            };
+            let k = c.rand_reads.get();
+            c.rand_reads.set(k + 1);
+            let mut x = crate::types::mix(seed ^ 0x656e_7472_6f70_79, ((c.me.get() as u64) << 48) | ((c.call_no.get() as u64) << 16) | (k & 0xffff));
+            let out = std::slice::from_raw_parts_mut(buf as *mut u8, len);
+            for chunk in out.chunks_mut(8) {
+                x = crate::types::mix(x, 0x9E37_79B9_7F4A_7C15);
+                let b = x.to_le_bytes();
+                chunk.copy_from_slice(&b[..chunk.len()]);
+            }
+            true
+        });
+        if seeded == Ok(true) {
+            return len as libc::ssize_t;
+        }
+    }
+    let ret: libc::c_long;
+    core::arch::asm!("syscall", inlateout("rax") libc::SYS_getrandom => ret, in("rdi") buf, in("rsi") len, in("rdx") flags as libc::c_long, lateout("rcx") _, lateout("r11") _, options(nostack));
+    if ret < 0 {
+        *libc::__errno_location() = (-ret) as i32;
+        return -1;
+    }
+    ret as libc::ssize_t
 }
